@@ -187,6 +187,33 @@ def label_before_data_case(rnd):
     return dirs, {"family": "label-before-data", "n": n, "lead": k}
 
 
+def absorb_case(rnd):
+    """A reference grows, the growth is absorbed by the alignment gap in front of a DATA word (so no label moves),
+    but instructions in between shift and one of them sits exactly at an encoding-length boundary."""
+    b = rnd.choice([16, 256, 256, 4096])
+    dirs = [("label", "top")]
+    dirs += filler(rnd, rnd.randrange(0, 4), big_ok=False)
+    # A: forward reference whose own length depends on what follows
+    mnA = rnd.choice(RELATIVE)
+    mnB = rnd.choice(RELATIVE)
+    style = rnd.choice(["A-then-B", "B-then-A", "two-A"])
+    span = window(rnd, b - 3, 4)
+    body = filler(rnd, max(0, span), big_ok=b > 256)
+    if style == "A-then-B":
+        dirs += [("ref", mnA, "d")] + body + [("ref", mnB, "top")]
+    elif style == "B-then-A":
+        dirs += body[:len(body) // 2] + [("ref", mnA, "d")] + body[len(body) // 2:] + [("ref", mnB, "top")]
+    else:
+        dirs += [("ref", mnA, "d")] + body + [("ref", mnB, "top"), ("ref", rnd.choice(RELATIVE), "d")]
+    dirs += filler(rnd, rnd.randrange(0, 4), big_ok=False)
+    dirs += [("label", "d"), ("data", rnd.randrange(1 << 32))]
+    if rnd.random() < 0.5:
+        dirs += filler(rnd, rnd.randrange(0, 3), big_ok=False) + [("ref", rnd.choice(RELATIVE), rnd.choice(["top", "d"]))]
+    if rnd.random() < 0.3:
+        dirs += [("label", "e"), ("data", 7), ("ref", rnd.choice(ABSOLUTE), rnd.choice(["d", "e"]))]
+    return dirs, {"family": "absorb-" + style, "bound": b}
+
+
 def _no_symbol_before_data(dirs):
     """FUNC/PROC mark code; one placed directly before DATA has no first instruction and is out of scope."""
     out = list(dirs)
@@ -207,9 +234,11 @@ def generate(rnd, big=False):
 
 def _generate(rnd, big=False):
     r = rnd.random()
-    if r < 0.30:
+    if r < 0.27:
         return boundary_case(rnd, big=big and rnd.random() < 0.02)
-    if r < 0.55:
+    if r < 0.42:
+        return absorb_case(rnd)
+    if r < 0.58:
         return chain_case(rnd)
     if r < 0.65:
         return data_alignment_case(rnd)
